@@ -17,7 +17,8 @@ def main(ctx, args):
         ["the window is 23 rows x 80 columns and every buffer fits, so H M L depend on the buffer only",
          "marks after undo, numbered registers after a yank and the cursor after a multi-line character-wise put follow the code",
          "filters, tags, keymaps and digraphs are not generated"],
-        exh=("edit", [8, 4, 4] if ctx.quick else [28, 27, 29], not ctx.quick))
+        exh=("edit", [8, 4, 4] if ctx.quick else [28, 27, 29], not ctx.quick),
+        mc=[(1, 2)] if ctx.quick else [(1, 3), (2, 2), (3, 2)])
 
 
 if __name__ == "__main__":
